@@ -143,3 +143,119 @@ def consistent(decisions: list[tuple[Atom, bool]]) -> bool:
                 if not t and v in a.value:
                     return False
     return True
+
+
+class FlagTracker:
+    """Tracks a few local flag variables along paths so that tests on them are
+    decided by the path's own assignment history.
+
+    Abstract values: N (None), F (False), T (True), E (falsy non-None constant),
+    S (set to an object - treated as truthy and not None), U (unknown)."""
+
+    def __init__(self, atomizer: Atomizer, names, truthy_objects: bool = True,
+                 initial: dict | None = None):
+        self.at = atomizer
+        self.names = tuple(sorted(names))
+        self.truthy_objects = truthy_objects
+        self._init = tuple((initial or {}).get(n, "U") for n in self.names)
+        self._atom_cache: dict[int, Atom | None] = {}
+
+    def initial(self):
+        return self._init
+
+    def _val(self, v: ast.expr | None) -> str:
+        if isinstance(v, ast.Constant):
+            if v.value is None:
+                return "N"
+            if v.value is True:
+                return "T"
+            if v.value is False:
+                return "F"
+            return "S" if v.value else "E"
+        if isinstance(v, (ast.List, ast.Tuple, ast.Dict, ast.Set)):
+            return "S" if (getattr(v, "elts", None) or getattr(v, "keys", None)) else "E"
+        return "S" if self.truthy_objects else "U"
+
+    def step(self, n: Node, label: str, st):
+        if n.kind == "stmt" and label not in ("exc", "raise"):
+            a = n.ast
+            vals = None
+            if isinstance(a, (ast.Assign, ast.AnnAssign)) and getattr(a, "value", None) is not None:
+                tg = []
+                for t in (a.targets if isinstance(a, ast.Assign) else [a.target]):
+                    if isinstance(t, ast.Name):
+                        tg.append((t.id, self._val(a.value)))
+                    elif isinstance(t, (ast.Tuple, ast.List)):
+                        for e in t.elts:
+                            if isinstance(e, ast.Name):
+                                tg.append((e.id, "U"))
+                vals = tg
+            elif isinstance(a, ast.AugAssign) and isinstance(a.target, ast.Name):
+                vals = [(a.target.id, "U")]
+            if vals:
+                lst = list(st)
+                ch = False
+                for nm, v in vals:
+                    if nm in self.names:
+                        lst[self.names.index(nm)] = v
+                        ch = True
+                if ch:
+                    st = tuple(lst)
+            return st
+        if n.kind == "iter" and label == "iter":
+            t = n.ast.target
+            names = [t] if isinstance(t, ast.Name) else list(getattr(t, "elts", []))
+            lst = list(st)
+            for e in names:
+                if isinstance(e, ast.Name) and e.id in self.names:
+                    lst[self.names.index(e.id)] = "U"
+            return tuple(lst)
+        if n.kind == "test" and label in ("T", "F"):
+            if n.id not in self._atom_cache:
+                self._atom_cache[n.id] = self.at.node_atom(n)
+            a = self._atom_cache[n.id]
+            if a is None or a.subject not in self.names:
+                return st
+            i = self.names.index(a.subject)
+            v = st[i]
+            atom_truth = (label == "T") ^ a.flip
+            possible = self._possible(a, v)
+            if atom_truth not in possible:
+                return None
+            # refine unknown
+            if v == "U":
+                lst = list(st)
+                if a.op == "is" and a.value is None:
+                    lst[i] = "N" if atom_truth else "U"
+                elif a.op == "truthy" and atom_truth:
+                    lst[i] = "S"
+                return tuple(lst)
+            return st
+        return st
+
+    @staticmethod
+    def _possible(a: Atom, v: str) -> set:
+        both = {True, False}
+        if v == "U":
+            return both
+        if a.op == "truthy":
+            return {v in ("T", "S")}
+        if a.op == "is":
+            if a.value is None:
+                return {v == "N"}
+            if a.value is False:
+                return {v == "F"}
+            if a.value is True:
+                return {v == "T"}
+            return both
+        if a.op == "==":
+            if a.value is False or a.value is True:
+                if v in ("T", "F"):
+                    return {(v == "T") == a.value}
+                if v == "N":
+                    return {False}
+                return both
+            if a.value is None:
+                return {v == "N"}
+            return both
+        return both
